@@ -81,6 +81,23 @@ def defaultWOpts : List String := ["-", "-", "-", "-", "r", "0", "101", "46", "4
 
 def fmtOf (s : String) : Format := ⟨(ofHex s).getD 0⟩
 
+/-- judge: exact value of written bytes `out` (plain format) compared with the float it came from.
+Answers `ok <roundtrips 0|1> <significant digits> <ulp distance of the exact value's nearest float>`. -/
+def judgeRoundTrip (ty : String) (fmt : Format) (o : POpts) (bits : Nat) (out : List Nat) : String :=
+  match Fmt.ofName ty with
+  | none => "-"
+  | some f =>
+    let r := fmt.mantissaRadix
+    match parseStdComplete r fmt.exponentRadix o out with
+    | .num l _ =>
+      let back := litBits f r fmt.exponentBase l
+      let ds := (l.intDigits ++ l.fracDigits).dropWhile (· = 0)
+      let sig := (ds.reverse.dropWhile (· = 0)).length
+      s!"ok {if back = bits then 1 else 0} {sig} {ulpDist back bits}"
+    | .nan _ => s!"ok {if f.isNaN bits then 1 else 0} 0 0"
+    | .inf neg _ => s!"ok {if bits = f.infBits + (if neg then f.signBit else 0) then 1 else 0} 0 0"
+    | .err => "err"
+
 /-- specification column -/
 def specOf (feats : Features) (t : List String) : String :=
   let op := t.headD ""
@@ -96,6 +113,8 @@ def specOf (feats : Features) (t : List String) : String :=
     if feats.compact then "-" else specWF ty Format.standard feats ((ofHex b).getD 0) (wOptsOf defaultWOpts)
   | "wf", ty :: f :: b :: rest =>
     if feats.compact then "-" else specWF ty (fmtOf f) feats ((ofHex b).getD 0) (wOptsOf (rest.take 10))
+  | "jrt", ty :: f :: rest =>
+    judgeRoundTrip ty (fmtOf f) (pOptsOf (rest.take 6)) ((ofHex (rest.getD 6 "0")).getD 0) (unhexBytes (rest.getD 7 "_"))
   | _, _ => "-"
 
 /-- model column: the first handler that recognises the op answers.
